@@ -524,8 +524,16 @@ def compile_quiet(src, options=None):
 
 def _e2e_one(R, opname):
     import nsl.LinearIR as IR
-    for ln, L in SPELL.items():
-        for rn, Rr in SPELL.items():
+    # operand forms: two parameters, and a parameter next to an integer / floating literal on either side (a literal has the type int / float
+    # whatever stands next to it: C09 types an operator from the types of its operands)
+    LIT = {"int": "2", "float": "2.5"}
+    cases = [(ln, rn, f"{ln} a, {rn} b", "a", "b", f"{ln},{rn}") for ln in SPELL for rn in SPELL]
+    for tn_, lit in LIT.items():
+        cases += [(ln, tn_, f"{ln} a", "a", lit, f"{ln},literal {lit}") for ln in SPELL]
+        cases += [(tn_, rn, f"{rn} b", lit, "b", f"literal {lit},{rn}") for rn in SPELL]
+    for ln, rn, params, ea, eb, tag in cases:
+        L, Rr = SPELL[ln], SPELL[rn]
+        for _once in (0,):
             exp = expected_concrete(opname, L, Rr)
             if exp == DONTCARE:
                 continue
@@ -536,8 +544,8 @@ def _e2e_one(R, opname):
                 tn = UNSPELL.get(res)
                 if tn is None:
                     continue          # result type not spellable (cannot be written as a return type)
-            src = f"export function f({ln} a, {rn} b) -> {tn} {{ return (a {OPSTR[opname]} b); }}"
-            oid = f"C09.e2e[{opname},{ln},{rn}]"
+            src = f"export function f({params}) -> {tn} {{ return ({ea} {OPSTR[opname]} {eb}); }}"
+            oid = f"C09.e2e[{opname},{tag}]"
             fn = "nsl.Compiler::Compiler.Compile"
             r, exc = compile_quiet(src)
             rp = script("""
@@ -563,11 +571,15 @@ def _e2e_one(R, opname):
             f = r.IRModule.Functions["f"]
             instrs = f.Instructions
             ret = [i for i in instrs if isinstance(i, IR.ReturnInstruction)]
-            ok = bool(ret) and ret[0].Value is not None and ir_desc(ret[0].Value.Type) == res
-            det = f"`{src}`: returned value has static type {ir_desc(ret[0].Value.Type) if ret and ret[0].Value is not None else None}, property says {res}"
-            if ok and exp.get("ops") and isinstance(ret[0].Value, IR.BinaryInstruction):
+            # the value the operator produced: the returned value, seen through conversions `return` inserted on its way to the declared type
+            opv = ret[0].Value if ret else None
+            while isinstance(opv, IR.CastInstruction):
+                opv = opv.Value
+            ok = bool(ret) and ret[0].Value is not None and ir_desc(ret[0].Value.Type) == res and opv is not None and ir_desc(opv.Type) == res
+            det = f"`{src}`: the operator's value has static type {ir_desc(opv.Type) if opv is not None else None} (returned: {ir_desc(ret[0].Value.Type) if ret and ret[0].Value is not None else None}), property says {res}"
+            if ok and exp.get("ops") and isinstance(opv, IR.BinaryInstruction):
                 want = [dl2(x) for x in exp["ops"]]
-                got = [ir_desc(v.Type) for v in ret[0].Value.Values]
+                got = [ir_desc(v.Type) for v in opv.Values]
                 if sorted(map(str, got)) != sorted(map(str, want)):      # (the IR may order the operands of a commutative operator differently)
                     ok = False
                     det = f"`{src}`: operands reach the operator with types {got}, property says {want}"
